@@ -115,40 +115,28 @@ Proof.
   - split; [discriminate | intros [H _]; discriminate].
 Qed.
 
-Lemma select_ok f i sel : select f i = inr sel -> sel = wanted f i.
-Proof.
-  unfold select, wanted. destruct (itargets i) as [|ts].
-  - congruence.
-  - destruct (Nat.ltb _ _); [destruct (find _ ts); discriminate | congruence].
-Qed.
-
-(** the three ways [select] can fail / succeed, in terms of the spec-side functions *)
+(** [select] is exact: it succeeds with the wanted fragments iff no requested name is missing, and
+    otherwise reports the first missing name with its own position *)
 Lemma select_cases f i :
   match select f i with
-  | inr sel => sel = wanted f i /\
-               (match itargets i with Wildcard => True
-                                 | Specific ts => length ts <= length (wanted f i) end)
-  | inl (FragmentNotFound n file p) =>
-      exists ts, itargets i = Specific ts /\ In (n, p) (missing_names f i) /\ file = ipath i
-  | inl PanicMissingTarget =>
-      exists ts, itargets i = Specific ts /\ missing_names f i = [] /\ length (wanted f i) < length ts
-  | inl _ => False
+  | inr sel => sel = wanted f i /\ missing_names f i = []
+  | inl e => exists n p rest, missing_names f i = (n, p) :: rest /\ e = FragmentNotFound n (ipath i) p
   end.
 Proof.
   unfold select, wanted, missing_names. destruct (itargets i) as [|ts]; [auto|].
-  destruct (Nat.ltb_spec (length (filter (fun d => existsb (fun t => is_frag_named (fst t) d) ts) (fdefs f)))
-                         (length ts)) as [Hlt|Hge].
-  - destruct (find _ ts) as [t|] eqn:Hf.
-    + apply find_some in Hf. destruct Hf as [Hin Hb]. exists ts; repeat split; auto.
-      apply filter_In; split; [destruct t; auto | auto].
-    + exists ts; repeat split; auto.
-      destruct (filter _ ts) as [|t r] eqn:Hfl; [reflexivity|].
-      assert (Hin : In t (filter (fun t => negb (existsb (is_frag_named (fst t)) (fdefs f))) ts))
-        by (rewrite Hfl; left; reflexivity).
-      apply filter_In in Hin. destruct Hin as [Hin Hb].
-      pose proof (find_none _ _ Hf t Hin) as Hn. cbn in Hn. congruence.
-  - split; [reflexivity | lia].
+  induction ts as [|t r IH]; cbn [find filter]; [auto|].
+  destruct (negb (existsb (is_frag_named (fst t)) (fdefs f))) eqn:E.
+  - destruct t as [n p]. exists n, p. eexists. split; reflexivity.
+  - destruct (find _ r) as [t'|] eqn:Hf.
+    + destruct IH as (n & p & rest & Hm & He). exists n, p, rest. split; [exact Hm | exact He].
+    + split; [reflexivity | apply IH].
 Qed.
+
+Lemma select_ok f i sel : select f i = inr sel -> sel = wanted f i.
+Proof. intros H. pose proof (select_cases f i) as Hc. rewrite H in Hc. tauto. Qed.
+
+Lemma select_ok_no_missing f i sel : select f i = inr sel -> missing_names f i = [].
+Proof. intros H. pose proof (select_cases f i) as Hc. rewrite H in Hc. tauto. Qed.
 
 (** * The traversal: success *)
 
@@ -334,7 +322,10 @@ Section Traversal.
   Qed.
 
   Lemma select_not_oof f i : select f i <> inl OutOfFuel.
-  Proof. pose proof (select_cases f i) as H. intros E; rewrite E in H; exact H. Qed.
+  Proof.
+    pose proof (select_cases f i) as H. intros E; rewrite E in H.
+    destruct H as (n & p & rest & _ & H). discriminate.
+  Qed.
 
   Lemma ok_post_incl doc imps vis acc vis' acc' : ok_post doc imps vis acc vis' acc' -> incl vis vis'.
   Proof. intros (tr & _ & Hvis & _) k Hk. apply Hvis; left; exact Hk. Qed.
@@ -387,19 +378,17 @@ Section Traversal.
 
   Lemma err_post_mono doc imps imps' e : incl imps imps' -> err_post doc imps e -> err_post doc imps' e.
   Proof.
-    intros Hincl; destruct e as [file p|n file p| |]; cbn; auto.
+    intros Hincl; destruct e as [file p|n file p|]; cbn; auto.
     - intros (k & i & Hr & H). exists k, i. split; [eapply RL_mono; eauto | exact H].
     - intros (k & i & f & Hr & H). exists k, i, f. split; [eapply RL_mono; eauto | exact H].
-    - intros (k & i & f & ts & Hr & H). exists k, i, f, ts. split; [eapply RL_mono; eauto | exact H].
   Qed.
 
   Lemma err_post_trans doc imps k0 i0 f0 e :
     RLs doc imps k0 i0 -> lookup st k0 = Some f0 -> err_post k0 (fimports f0) e -> err_post doc imps e.
   Proof.
-    intros Hr0 Hl0; destruct e as [file p|n file p| |]; cbn; auto.
+    intros Hr0 Hl0; destruct e as [file p|n file p|]; cbn; auto.
     - intros (k & i & Hr & H). exists k, i. split; [eapply RL_trans; eauto | exact H].
     - intros (k & i & f & Hr & H). exists k, i, f. split; [eapply RL_trans; eauto | exact H].
-    - intros (k & i & f & ts & Hr & H). exists k, i, f, ts. split; [eapply RL_trans; eauto | exact H].
   Qed.
 
   Definition recur_err (recur : key -> list import -> list key -> list def -> ierr + rstate) : Prop :=
@@ -420,11 +409,9 @@ Section Traversal.
           -- inversion H; subst e1. apply Hrec in Hr. eapply err_post_trans; eauto.
           -- destruct (select f i) as [e1|sel] eqn:Hs.
              ++ inversion H; subst e1. pose proof (select_cases f i) as Hc. rewrite Hs in Hc.
-                destruct e as [file p|n file p| |]; cbn; try contradiction.
-                ** destruct Hc as (ts & Ht & Hin & Hfile).
-                   exists (import_key doc i), i, f. auto.
-                ** destruct Hc as (ts & Ht & Hm & Hlen).
-                   exists (import_key doc i), i, f, ts. auto.
+                destruct Hc as (n & p & rest0 & Hm & ->). cbn.
+                exists (import_key doc i), i, f. split; [exact Hroot|]. split; [exact Hl|].
+                split; [rewrite Hm; left; reflexivity | reflexivity].
              ++ apply IH in H. eapply err_post_mono; [|exact H]. intros x Hx; right; exact Hx.
         * inversion H; subst e. cbn. exists (import_key doc i), i. auto.
   Qed.
@@ -570,25 +557,7 @@ Section Traversal.
           exact (Hsep k i f Hr Hl d Hw Hd).
     Qed.
 
-    (** *** Errors are complete, and there is no panic, under the name guards *)
-
-    Definition FragNamesP : Prop :=
-      forall k i f, RLr k i -> lookup st k = Some f -> NoDup (frag_names f).
-    Definition TargetNamesP : Prop := forall k i, RLr k i -> NoDup (target_names i).
-
-    Definition str_dec : forall a b : str, {a = b} + {a <> b} := list_eq_dec N.eq_dec.
-
-    Lemma NoDup_map_filter_sub {A B} (g : A -> B) (p q : A -> bool) l :
-      (forall x, p x = true -> q x = true) -> NoDup (map g (filter q l)) -> NoDup (map g (filter p l)).
-    Proof.
-      intros Hpq; induction l as [|a l IH]; cbn; intros H; [constructor|].
-      destruct (p a) eqn:Hp.
-      - rewrite (Hpq a Hp) in H. cbn in *. inversion H as [|? ? Hnotin Hnd]; subst. constructor; [|auto].
-        intros Hin. apply Hnotin. apply in_map_iff in Hin. destruct Hin as (x & Hx & Hin).
-        apply in_map_iff. exists x. split; [exact Hx|]. apply filter_In in Hin. apply filter_In.
-        destruct Hin as [Hin Hpx]. split; [exact Hin | apply Hpq; exact Hpx].
-      - destruct (q a); [inversion H; subst; auto | auto].
-    Qed.
+    (** *** Errors are complete *)
 
     Lemma missing_nil_iff f i ts :
       itargets i = Specific ts ->
@@ -605,70 +574,32 @@ Section Traversal.
         apply filter_In in Hin. destruct Hin as [Hin Hb]. rewrite (H t Hin) in Hb. discriminate.
     Qed.
 
-    Lemma select_ok_no_missing f i sel :
-      NoDup (frag_names f) -> select f i = inr sel -> missing_names f i = [].
-    Proof.
-      intros Hnd Hs. pose proof (select_cases f i) as Hc. rewrite Hs in Hc. destruct Hc as [_ Hlen].
-      destruct (itargets i) as [|ts] eqn:Ht; [unfold missing_names; rewrite Ht; reflexivity|].
-      apply (missing_nil_iff f i ts Ht). intros t0 Hin0.
-      destruct (existsb (is_frag_named (fst t0)) (fdefs f)) eqn:E0; [reflexivity|exfalso].
-      assert (Hw : wanted f i = filter (fun d => existsb (fun t => is_frag_named (fst t) d) ts) (fdefs f))
-        by (unfold wanted; rewrite Ht; reflexivity).
-      assert (Hnd_sel : NoDup (map def_name (wanted f i))).
-      { rewrite Hw. apply (NoDup_map_filter_sub def_name _ def_is_frag); [|exact Hnd].
-        intros d Hd. apply existsb_exists in Hd. destruct Hd as (t & _ & Hd).
-        apply is_frag_named_spec in Hd. tauto. }
-      assert (Hincl : incl (map def_name (wanted f i)) (remove str_dec (fst t0) (map fst ts))).
-      { intros n Hn. apply in_map_iff in Hn. destruct Hn as (d & <- & Hd).
-        rewrite Hw in Hd. apply filter_In in Hd. destruct Hd as [Hd He].
-        apply existsb_exists in He. destruct He as (t & Ht_in & Hnamed).
-        pose proof Hnamed as Hnamed'. apply is_frag_named_spec in Hnamed'. destruct Hnamed' as [_ Hname].
-        apply in_in_remove.
-        - intros Heq.
-          assert (Hex : existsb (is_frag_named (fst t0)) (fdefs f) = true).
-          { apply existsb_exists. exists d. split; [exact Hd|]. rewrite <- Heq, Hname. exact Hnamed. }
-          congruence.
-        - rewrite Hname. apply in_map; exact Ht_in. }
-      pose proof (NoDup_incl_length Hnd_sel Hincl) as Hle.
-      assert (Hlt : length (remove str_dec (fst t0) (map fst ts)) < length (map fst ts))
-        by (apply remove_length_lt; apply in_map; exact Hin0).
-      rewrite !map_length in *. lia.
-    Qed.
-
-    Lemma no_missing_len f i ts :
-      itargets i = Specific ts -> missing_names f i = [] -> NoDup (map fst ts) ->
-      length ts <= length (wanted f i).
-    Proof.
-      intros Ht Hm Hnd. rewrite <- (map_length fst ts), <- (map_length def_name (wanted f i)).
-      apply NoDup_incl_length; [exact Hnd|].
-      intros n Hn. apply in_map_iff in Hn. destruct Hn as (t & <- & Hin).
-      pose proof (proj1 (missing_nil_iff f i ts Ht) Hm t Hin) as He.
-      apply existsb_exists in He. destruct He as (d & Hd & Hnamed).
-      apply in_map_iff. exists d. split; [apply is_frag_named_spec in Hnamed; tauto|].
-      unfold wanted. rewrite Ht. apply filter_In. split; [exact Hd|].
-      apply existsb_exists. exists t. auto.
-    Qed.
-
     Lemma imports_error_complete_P :
-      AgreeBadP -> FragNamesP -> BadLine st root_path (fimports root) ->
+      AgreeBadP -> BadLine st root_path (fimports root) ->
       forall ds, resolve_imports st root_path root <> inr ds.
     Proof.
-      intros Hagree Hfn (k & i & Hr & Hbad) ds H.
+      intros Hagree (k & i & Hr & Hbad) ds H.
       destruct (top_ok ds H) as (tr & _ & _ & Hent & Hall).
       destruct (Hall k i Hr) as (i0 & f & Hin).
       destruct (Hent k i0 f Hin) as (Hl & Hs & Hr0).
       rewrite Hl in Hbad. apply Hbad.
       apply (Hagree k i i0 f Hr Hr0 Hl).
-      eapply select_ok_no_missing; [eapply Hfn; eauto | exact Hs].
+      eapply select_ok_no_missing; exact Hs.
     Qed.
 
-    Lemma imports_no_panic_P :
-      TargetNamesP -> resolve_imports st root_path root <> inl PanicMissingTarget.
+    (** for every file a reachable line points at, one line that points at it was processed in
+        full: all its names are defined there and its fragments are in the result (no guard) *)
+    Lemma imports_one_line_honoured ds :
+      resolve_imports st root_path root = inr ds ->
+      forall k i, RLr k i ->
+        exists i0 f, RLr k i0 /\ lookup st k = Some f /\ missing_names f i0 = []
+                     /\ incl (wanted f i0) ds.
     Proof.
-      intros Htn H. apply imports_error_sound in H. cbn in H.
-      destruct H as (k & i & f & ts & Hr & Hl & Ht & Hm & Hlen).
-      pose proof (Htn k i Hr) as Hnd. unfold target_names in Hnd. rewrite Ht in Hnd.
-      pose proof (no_missing_len f i ts Ht Hm Hnd). lia.
+      intros H k i Hr. destruct (top_ok ds H) as (tr & -> & _ & Hent & Hall).
+      destruct (Hall k i Hr) as (i0 & f & Hin). destruct (Hent k i0 f Hin) as (Hl & Hs & Hr0).
+      exists i0, f. split; [exact Hr0|]. split; [exact Hl|].
+      split; [eapply select_ok_no_missing; exact Hs|].
+      intros d Hd. apply in_or_app; right. apply in_tr_defs. exists k, i0, f. auto.
     Qed.
 
     (** *** The computable guards imply the Prop-level ones *)
@@ -771,15 +702,6 @@ Section Traversal.
             unfold defs_at; [rewrite Hl1 | rewrite Hl2]; assumption.
       Qed.
 
-      Lemma names_guard_b_P :
-        names_guard_b st ks (all_lines st root_path root ks) = true -> FragNamesP /\ TargetNamesP.
-      Proof.
-        unfold names_guard_b. rewrite andb_true_iff, !forallb_forall. intros [Hf Ht]. split.
-        - intros k i f Hr Hl. destruct (RL_in_lines k i Hr) as [_ Hin].
-          pose proof (Hf k Hin) as H. rewrite Hl in H. apply nodup_strs_NoDup; exact H.
-        - intros k i Hr. destruct (RL_in_lines k i Hr) as [Hin _].
-          pose proof (Ht _ Hin) as H. cbn [snd] in H. apply nodup_strs_NoDup; exact H.
-      Qed.
     End Guards.
   End Exact.
 End Traversal.
@@ -801,7 +723,7 @@ Qed.
 Lemma justified_bad st doc imps e :
   positioned e = true -> Justified st doc imps e -> BadLine st doc imps.
 Proof.
-  destruct e as [file p|n file p| |]; cbn; try discriminate; intros _.
+  destruct e as [file p|n file p|]; cbn; try discriminate; intros _.
   - intros (k & i & Hr & Hl & _). exists k, i. split; [exact Hr|]. rewrite Hl. exact I.
   - intros (k & i & f & Hr & Hl & Hin & _). exists k, i. split; [exact Hr|]. rewrite Hl.
     intros E; rewrite E in Hin; contradiction.
@@ -809,29 +731,17 @@ Qed.
 
 Theorem imports_error_iff st root_path root ks :
   error_guard_b st root_path root ks = true ->
-  names_guard_b st ks (all_lines st root_path root ks) = true ->
   (BadLine st root_path (fimports root) <->
    exists e, resolve_imports st root_path root = inl e /\ positioned e = true).
 Proof.
-  unfold error_guard_b. rewrite andb_true_iff. intros [Hc Ha] Hn.
+  unfold error_guard_b. rewrite andb_true_iff. intros [Hc Ha].
   destruct (agree_b_P st root_path root ks Hc Ha) as [_ Hbad].
-  destruct (names_guard_b_P st root_path root ks Hc Hn) as [Hfn Htn].
   split.
   - intros Hb. destruct (resolve_imports st root_path root) as [e|ds] eqn:H.
     + exists e. split; [reflexivity|]. destruct e; try reflexivity.
-      * exfalso. exact (imports_no_panic_P st root_path root Htn H).
-      * exfalso. exact (imports_terminate st root_path root H).
-    + exfalso. exact (imports_error_complete_P st root_path root Hbad Hfn Hb ds H).
+      exfalso. exact (imports_terminate st root_path root H).
+    + exfalso. exact (imports_error_complete_P st root_path root Hbad Hb ds H).
   - intros (e & H & Hp). eapply justified_bad; [exact Hp|]. apply imports_error_sound; exact H.
-Qed.
-
-Theorem imports_no_panic st root_path root ks :
-  closed_b st root_path root ks = true ->
-  names_guard_b st ks (all_lines st root_path root ks) = true ->
-  resolve_imports st root_path root <> inl PanicMissingTarget.
-Proof.
-  intros Hc Hn. destruct (names_guard_b_P st root_path root ks Hc Hn) as [_ Htn].
-  apply imports_no_panic_P; exact Htn.
 Qed.
 
 (** * The order of import lines *)
@@ -1034,18 +944,6 @@ Section Equiv.
       exact (Hd k1 i1 f1 k2 i2 f2 d H1' H2' Hne Hl10 Hl20 Hd1 Hd2).
   Qed.
 
-  Lemma FragNamesP_equiv : FragNamesP st root_path root -> FragNamesP st' root_path root'.
-  Proof.
-    intros H k i' f' Hr Hl. destruct (back k i' f' Hr Hl) as (i & f & _ & Hr' & Hl0 & Hdf).
-    unfold frag_names. rewrite <- Hdf. exact (H k i f Hr' Hl0).
-  Qed.
-
-  Lemma TargetNamesP_equiv : TargetNamesP st root_path root -> TargetNamesP st' root_path root'.
-  Proof.
-    intros H k i' Hr.
-    destruct (RL_equiv st' st root_path _ _ k i' Hst' Hp' Hr) as (i & He & Hr0).
-    eapply Permutation_NoDup; [apply Permutation_sym; apply (target_names_equiv i' i He) | exact (H k i Hr0)].
-  Qed.
 End Equiv.
 
 (** the general form: import lines may be reordered, repeated, and the names within a line
@@ -1053,27 +951,23 @@ End Equiv.
 Theorem import_lines_irrelevant st st' root_path root root' ks ds :
   store_equiv st st' -> file_equiv root root' ->
   exact_guard_b st root_path root ks = true ->
-  names_guard_b st ks (all_lines st root_path root ks) = true ->
   resolve_imports st root_path root = inr ds ->
   exists ds', resolve_imports st' root_path root' = inr ds' /\ (forall d, In d ds <-> In d ds') /\ NoDup ds'.
 Proof.
-  intros Hst Hroot Hg Hn H.
+  intros Hst Hroot Hg H.
   pose proof Hg as Hg0. unfold exact_guard_b in Hg0. rewrite !andb_true_iff in Hg0.
   destruct Hg0 as [[[Hc Hd] Ha] Hr].
   destruct (agree_b_P st root_path root ks Hc Ha) as [HA HAB].
   pose proof (rootsep_b_P st root_path root ks Hc Hr) as HR.
   pose proof (distinct_b_P st root_path root ks Hc Hd) as HD.
-  destruct (names_guard_b_P st root_path root ks Hc Hn) as [HF HT].
   destruct (imports_exact st root_path root ks ds Hg H) as [Hset _].
   destruct (resolve_imports st' root_path root') as [e|ds'] eqn:H'.
   - exfalso. destruct (positioned e) eqn:Hpos.
     + apply imports_error_sound in H'. apply (justified_bad _ _ _ _ Hpos) in H'.
       apply (BadLine_equiv st' st root_path root' root (store_equiv_sym _ _ Hst) (file_equiv_sym _ _ Hroot)) in H'.
-      exact (imports_error_complete_P st root_path root HAB HF H' ds H).
+      exact (imports_error_complete_P st root_path root HAB H' ds H).
     + destruct e; try discriminate.
-      * exact (imports_no_panic_P st' root_path root'
-                 (TargetNamesP_equiv st st' root_path root root' Hst Hroot HT) H').
-      * exact (imports_terminate st' root_path root' H').
+      exact (imports_terminate st' root_path root' H').
   - exists ds'. split; [reflexivity|].
     destruct (imports_exact_P st' root_path root' ds'
                 (AgreeP_equiv st st' root_path root root' Hst Hroot HA)
@@ -1088,7 +982,6 @@ Qed.
 Theorem import_order_irrelevant st st' root_path root root' ks ds :
   store_perm st st' -> file_perm root root' ->
   exact_guard_b st root_path root ks = true ->
-  names_guard_b st ks (all_lines st root_path root ks) = true ->
   resolve_imports st root_path root = inr ds ->
   exists ds', resolve_imports st' root_path root' = inr ds' /\ (forall d, In d ds <-> In d ds') /\ NoDup ds'.
 Proof.
@@ -1226,27 +1119,22 @@ Proof.
   intros H. inversion H as [|? ? Hn _]; subst. apply Hn. right; left; reflexivity.
 Qed.
 
-(** `#import FA, FA from "./x.graphql"` *)
+(** `#import FA, FA from "./x.graphql"` (or the same import line twice): since /repo 3dc6a57 the
+    fragment is imported once and nothing is reported (it used to panic) *)
 Definition main_dup_items : list item :=
   [IImport P0 [TName (s "FA") P0; TName (s "FA") P0] (s "./x.graphql") P0; IDef (Def false (s "Q") 0)].
+Definition main_dup_items2 : list item :=
+  [IImport P0 [TName (s "FA") P0] (s "./x.graphql") P0; IImport P0 [TName (s "FA") P0] (s "./x.graphql") P0;
+   IDef (Def false (s "Q") 0)].
 Definition x_one : file := {| fdefs := [frag (s "FA") 100]; fimports := [] |}.
 Definition st_dup : store := [(kp (s "/p/x.graphql"), x_one)].
 
-Lemma dup_target_refuted :
-  exists root, resolve_extensions main_dup_items = inr root
-               /\ resolve_imports st_dup k_main root = inl PanicMissingTarget
-               /\ ~ BadLine st_dup k_main (fimports root).
-Proof.
-  eexists. split; [vm_compute; reflexivity|]. split; [vm_compute; reflexivity|].
-  assert (Hall : forall k i,
-             RL st_dup k_main [imp (s "./x.graphql") (names [s "FA"; s "FA"])] k i ->
-             k = kp (s "/p/x.graphql") /\ i = imp (s "./x.graphql") (names [s "FA"; s "FA"])).
-  { intros k i Hr. induction Hr as [i Hi | k i f j _ IH Hl Hj].
-    - destruct Hi as [<-|[]]. split; vm_compute; reflexivity.
-    - destruct IH as [Hk Hi]. subst k i. vm_compute in Hl. injection Hl as Hf. subst f. destruct Hj. }
-  intros (k & i & Hr & Hb). destruct (Hall k i Hr) as [Hk Hi]. subst k i.
-  vm_compute in Hb. congruence.
-Qed.
+Lemma dup_target_ok :
+  (exists root, resolve_extensions main_dup_items = inr root
+                /\ resolve_imports st_dup k_main root = inr [Def false (s "Q") 0; frag (s "FA") 100])
+  /\ (exists root, resolve_extensions main_dup_items2 = inr root
+                /\ resolve_imports st_dup k_main root = inr [Def false (s "Q") 0; frag (s "FA") 100]).
+Proof. split; eexists; split; vm_compute; reflexivity. Qed.
 
 (** the second line to an already visited file is not checked *)
 Definition main_skipped : file :=
@@ -1266,22 +1154,19 @@ Proof.
   - vm_compute. discriminate.
 Qed.
 
-(** counting hides a missing fragment when the target defines another one twice *)
+(** a target that defines one requested fragment twice no longer hides that another requested
+    fragment is undefined (the test is by name since /repo 3dc6a57) *)
 Definition main_masks : file :=
   {| fdefs := [Def false (s "Q") 0]; fimports := [imp (s "./x.graphql") (names [s "FA"; s "FB"])] |}.
 Definition x_twice : file := {| fdefs := [frag (s "FA") 100; frag (s "FA") 101]; fimports := [] |}.
 Definition st_masks : store := [(k_main, main_masks); (kp (s "/p/x.graphql"), x_twice)].
 
-Lemma dup_fragment_masks_refuted :
-  (exists ds, resolve_imports st_masks k_main main_masks = inr ds)
-  /\ BadLine st_masks k_main (fimports main_masks).
-Proof.
-  split; [eexists; vm_compute; reflexivity|].
-  exists (kp (s "/p/x.graphql")), (imp (s "./x.graphql") (names [s "FA"; s "FB"])). split.
-  - change (kp (s "/p/x.graphql")) with (import_key k_main (imp (s "./x.graphql") (names [s "FA"; s "FB"]))).
-    apply RL_root. left; reflexivity.
-  - vm_compute. discriminate.
-Qed.
+Lemma dup_fragment_reported :
+  resolve_imports st_masks k_main main_masks = inl (FragmentNotFound (s "FB") (s "./x.graphql") P0)
+  /\ resolve_imports st_masks k_main
+       {| fdefs := [Def false (s "Q") 0]; fimports := [imp (s "./x.graphql") (names [s "FA"])] |}
+     = inr [Def false (s "Q") 0; frag (s "FA") 100; frag (s "FA") 101].
+Proof. split; vm_compute; reflexivity. Qed.
 
 (** ** Non-vacuity: a cyclic, shared-target graph that satisfies every guard *)
 Definition main_rec : file :=
@@ -1301,7 +1186,6 @@ Example guards_satisfiable :
   let ks := reach_b st_rec k_main main_rec in
   exact_guard_b st_rec k_main main_rec ks = true
   /\ error_guard_b st_rec k_main main_rec ks = true
-  /\ names_guard_b st_rec ks (all_lines st_rec k_main main_rec ks) = true
   /\ length ks = 3
   /\ resolve_imports st_rec k_main main_rec
      = inr [Def false (s "Q") 0; frag (s "W1") 300; frag (s "W2") 301; frag (s "Frag2") 200; frag (s "Frag1") 100].
@@ -1314,7 +1198,6 @@ Definition st_err : store := [(k_main, main_err); (kp (s "/p/x.graphql"), x_file
 Example error_guards_satisfiable :
   let ks := reach_b st_err k_main main_err in
   error_guard_b st_err k_main main_err ks = true
-  /\ names_guard_b st_err ks (all_lines st_err k_main main_err ks) = true
   /\ resolve_imports st_err k_main main_err = inl (FragmentNotFound (s "Zz") (s "./x.graphql") P0).
 Proof. vm_compute. repeat split; reflexivity. Qed.
 
@@ -1352,11 +1235,6 @@ Lemma error_iff_full_refuted : ~ imports_error_iff_full.
 Proof.
   intros H. destruct skipped_error_refuted as ((ds & Hres) & Hbad).
   apply H in Hbad. destruct Hbad as (e & He & _). congruence.
-Qed.
-
-Lemma no_panic_full_refuted : ~ imports_no_panic_full.
-Proof.
-  intros H. destruct dup_target_refuted as (root & _ & Hp & _). exact (H _ _ _ Hp).
 Qed.
 
 (** * Unguarded soundness of the result: whatever the shape of the graph, every definition of a
